@@ -4,21 +4,21 @@ import json, os, sys
 ROOT=os.path.join(os.path.dirname(os.path.abspath(__file__)),'..')
 IMPLEMENTED = sys.argv[1].split(',') if len(sys.argv)>1 else open(os.path.join(ROOT,'tools','implemented.txt')).read().split()
 P={
-"C01":("exploration","model","stateful property-based testing against an MVCC reference model (proptest, generated histories x physical placements)",
-  "Generated multi-transaction histories with long-lived readers, cursors and arbitrary placements of rotate/flush/compaction are executed against the real store and an independent commit-log model; every read of every open reader is compared with the model at the reader's start horizon. Exploration over bounded histories; a violation is shrunk to a minimal step list.",
-  "Trusted: reference model and interpreter; single-threaded interpreter with manual background work (schedules are the scheduler engine's job); bounded sizes (<=70 steps, <=6 readers, <=16 keys)."),
+"C01":("exploration","model","stateful property-based testing against an MVCC reference model (proptest) plus generated schedules over yield points (token scheduler)",
+  "Two generated streams. (1) Multi-transaction histories with long-lived readers, cursors and arbitrary placements of rotate/flush/compaction run against the real store and an independent commit-log model; every read of every open reader is compared with the model at the reader's start horizon. (2) Schedules: committer, reader and flusher actors interleaved at the yield points inside Transaction::new, the commit pipeline, point reads, rotation, flush and compaction (incl. points between two lock acquisitions); every read of a reader must equal the state after the commits at or below its start sequence. Bounded exploration; failures shrink to a minimal step list / schedule.",
+  "Trusted: reference model, interpreter, scheduler (one actor at a time, sequentially consistent, interleavings only at the instrumented points); bounded sizes (<=70 steps, <=6 readers, <=16 keys; <=3 committers x 3 transactions in schedules)."),
 "C02":("fault_enumeration","crash","crash-point enumeration over recorded file-operation traces with generated workloads (PBT over workloads x crash points x crash models)",
   "Generated workloads are recorded at file-operation granularity; crash images (process crash and power loss) are reconstructed at operation boundaries, reopened, and every acknowledged commit must be present.",
   "Trusted: LD_PRELOAD recorder and image builder; power-loss model = per-file synced prefix, ordered namespace ops, torn appended tails."),
 "C03":("fault_enumeration","crash","crash-point enumeration; recovered state must equal the model after some prefix of the commit order",
   "Same images as C02; the full recovered map must equal state(h) for an admissible prefix h.",
   "As C02."),
-"C04":("exploration","sched","generated schedules over yield points + PBT of the conflict oracle against a keep-everything model",
-  "Oracle-level operation sequences and controlled interleavings of committers; conflict iff an earlier-published overlapping writer.",
-  "Sequentially consistent interleavings at instrumented yield points only."),
-"C05":("exploration","sched","generated schedules with probe readers after every decision",
-  "Probe transactions between every two scheduling decisions must see whole transactions forming a growing prefix of the allocation order.",
-  "Sequentially consistent interleavings at instrumented yield points only."),
+"C04":("exploration","sched","generated schedules over the commit pipeline's yield points judged from the pipeline's own event order, plus oracle-level stateful PBT of the conflict map",
+  "(1) 2..5 committers with heavily overlapping key sets (read-write / write-only, refused oversized batches for the rollback path, forced GC of the conflict map) under generated schedules; in the order of the critical sections a transaction must be refused iff an earlier critical section stamped one of its keys above its start sequence, a pass with both transactions committed is a lost update, TransactionRetry only in the documented begin race; final state = effective commits in sequence order. (2) The real CommitOracle driven under the pipeline's caller contract (check / publish / rollback / reset_for_restore, forced GC, bursts of >1024 commits) against a model of all effective commits.",
+  "Sequentially consistent schedules at the instrumented points; 64-bit fingerprint collisions ignored; restore with open transactions only at the oracle level."),
+"C05":("exploration","sched","generated schedules (incl. priority schedules) with a probe transaction between any two decisions; prefix-of-commit-order oracle",
+  "2..6 committers (private + shared keys, batches that rotate the memtable inside apply, duplicate writes), readers, a flusher; a probe transaction is begun between ANY two scheduling decisions and reads every key: it must equal the state after a prefix of the sequence-allocation order, prefixes never shrink, every commit acknowledged before the probe is inside it, the probe's start sequence separates visible from invisible commits.",
+  "One actor at a time; the lock-free queue's internal races are not explored; up to 6 committers x 2 transactions."),
 "C06":("exploration","model","metamorphic/differential PBT: one logical history under several physical plans and option sets, plus the reference model",
   "The same generated logical history is executed with generated physical placements/options and as an all-in-memory twin; all answers must equal the model and each other.",
   "Trusted: model + interpreter; bounded histories."),
@@ -34,9 +34,9 @@ P={
 "C10":("exploration","model","stateful PBT of timestamped histories against a version-list model; metamorphic over physical steps and the two index back-ends",
   "Generated timestamped histories with barriers, retention and physical placements; get_at/history answers compared with the model and between back-ends.",
   "Trusted: versioned model; ties and limit semantics judged only as far as documented."),
-"C11":("exploration","model","stateful PBT with value sizes around the separation threshold and tiny vlog files",
-  "Every value read (point, scan, cursor, by old readers) must be byte-identical to the model across flush/compaction/rotation/clean-up/reopen; after every physical step each live table's oldest referenced vlog file must exist.",
-  "Trusted: model + interpreter; crash images are covered by the crash engine."),
+"C11":("exploration","model","stateful PBT with value-size classes around the threshold against a byte-exact model, plus generated schedules with separate flusher and compactor actors",
+  "(1) Histories with value sizes around the separation threshold, tiny value-log files, overwrite patterns that make files obsolete, long-lived readers, reopen; byte equality of every read and existence of every reachable value-log file after every physical step. (2) Schedules: a flush (with its value-log clean-up) may complete while a compaction is parked between hiding its inputs and switching the manifest; every read must succeed and return a value some transaction wrote to that key, also after a reopen (nothing cached).",
+  "Crash axis of value-log files is covered by C02/C03/C07 images (vlog on in half of them)."),
 "C12":("fault_enumeration","format","exhaustive damage-offset enumeration over generated WAL segments (PBT) plus libFuzzer",
   "Generated record-length sequences and session splits; every truncation / byte / bit damage position; reader and repair must yield an exact prefix; appends after recovery must be read back.",
   "Small segments exhaustively, larger ones sampled near boundaries."),
@@ -46,21 +46,21 @@ P={
 "C14":("exploration","model","stateful PBT: history -> checkpoint -> history -> restore -> history -> reopen against a model that rewinds its commit log",
   "Restore truncates the model to the checkpoint; everything after must behave as usual (new commits visible and durable, no data from the discarded timeline); checkpoint copies opened standalone must scan to the checkpointed state. Streams: plain, vlog on, cache on.",
   "Trusted: model; no commit in flight at checkpoint time (single-threaded interpreter)."),
-"C15":("fault_enumeration","crash","fault-position enumeration (n-th write/fsync fails) over generated workloads",
-  "Failed commits leave no trace; later acknowledged commits are recovered.",
-  "Fault injection at the libc boundary."),
+"C15":("fault_enumeration","crash","fault-position enumeration (n-th write / fsync / rename / open on a file class fails) over generated workloads, then crash-image enumeration after the fault; plus schedules with refused batches",
+  "A fault-free pass places the fault on an operation that exists; the faulted run (LD_PRELOAD shim) checks after every failed commit that none of its writes is visible; then process-crash and power-loss images are enumerated at the file-operation boundaries after the fault and must open to an acknowledged-commit prefix that contains no transaction whose commit() had returned an error. Non-I/O family: schedules in which batches larger than the memtable must be refused, leave nothing visible (probes) and not poison later commits.",
+  "One fault specification per run (transient or sticky); operations of the initial open are not faulted; a transaction inside commit() at the crash is optional as a whole."),
 "C16":("fault_enumeration","format","bit/byte-flip enumeration over files of generated databases",
   "Every answer on a damaged copy equals the pristine answer or is an error; no panic/hang.",
   "Sub-process isolation."),
-"C17":("exploration","sched","generated schedules with a structural no-progress detector",
-  "Every commit and close returns under all explored interleavings.",
-  "Bounded, sequentially consistent."),
+"C17":("exploration","sched","generated schedules (priority schedules, five actor-mix flavours) with structural no-progress / lock-cycle detection confirmed by re-run",
+  "Committers (more than the pipeline permits), flusher with a drain loop, closer, readers creating range cursors; tiny memtables and low stall thresholds. The run must complete: at every decision somebody is eligible or everything has finished; an actor blocked inside the store while lock holders parked between two lock acquisitions are released and block as well is a lock cycle; no actor panics; every commit() and close() returns. A stuck run is only reported if the same case is stuck again when re-run from scratch.",
+  "Bounded: no reachable stuck state in the explored schedules; not a liveness proof; decision-budget exhaustion is inconclusive."),
 "C18":("exploration","format","stateful PBT of the B+tree against BTreeMap with page accounting",
   "Generated op sequences with skewed sizes; results and page accounting compared.",
   "Public BPlusTree API."),
-"C19":("exploration","lock","generated open/close/drop/kill sequences over several openers against a single-owner model",
-  "An open succeeds iff nobody owns the directory; refused opens leave the directory unchanged.",
-  "In-process and cross-process."),
+"C19":("exploration","lock","generated open/close/drop/kill/restore sequences over several openers against a single-owner model, plus schedules with an opener racing close()",
+  "An open succeeds iff nobody owns the directory (in-process and cross-process openers, races, kill -9, owner restoring a checkpoint); refused opens leave the directory unchanged (LOCK file excepted). Schedule stream: an opener actor tries to open while the closer is parked at the yield points inside close(); it may succeed only after close() has returned.",
+  "In-process and cross-process; fork duplicates descriptors, hence one worker for the process stream."),
 }
 checks=[]; na=[]
 for pid in sorted(P):
